@@ -44,7 +44,12 @@ ASSUMPTIONS = [
     "get_rho_tuple_with_grad_cross, and are treated as independent arguments (dres = d/dX0T at fixed rho_tuple, "
     "vrho_tuple = d/drho_tuple at fixed X0T), which is how eval_xc_cider chains them",
     "FD oracle: 5-point stencil with relative steps 1e-3 and 5e-4; tolerance 1e-7 relative to the per-sample scale "
-    "max(|res|, max_j |dres_j x_j|); elements whose two step sizes disagree by more than 1e-8 of that scale are skipped",
+    "max(|res|, |baseline value|, max_j |dres_j x_j|); elements whose two step sizes disagree by more than 3.3e-9 of "
+    "that scale are skipped (measured floors over seeds 0-4, both tiers: 2.3e-9 features incl. spline sets near knots, "
+    "4.3e-9 vrho, 2.3e-9 bare evaluators)",
+    "two FD populations are limited by libxc's own smoothness and use tolerance 1e-6 with the same guard: feature FD at "
+    "densities 1e-11..1e-5 around the cutoff (floor 8.8e-9) and vrho FD with SS_/OS_ split baselines at nspin=2 in "
+    "NPOL/POL mode, which evaluate libxc at exactly full polarisation and subtract (floor 1.1e-8)",
     "exact relations (accumulation, batching, above-cutoff equality) are compared at 1e-12 of the per-sample scale, not "
     "bitwise (threaded C kernels / BLAS)",
     "below the cutoff MappedXC2 keeps the additive libxc baseline (value and vrho) by construction; the check demands "
@@ -56,6 +61,12 @@ REQUIRED_CALLS = ["libmcider.evaluate_se_kernel", "libmcider.evaluate_se_kernel_
                   "libxc_utils.get_mgga_baseline", "libxc_utils.get_lda_baseline"]
 
 TOL_FD = 1e-7
+# FD populations limited by the smoothness of libxc itself (measured over seeds 0-4, both tiers): features at densities
+# 1e-11..1e-5 around the cutoff (native gga_c_pbe -> libxc; floor 8.8e-9, 1.3e-8 with a guard of 1e-8), and vrho of the
+# same-spin / opposite-spin split baselines at nspin = 2, which call libxc at exactly full polarisation and subtract
+# (floor 1.1e-8, 2.7e-8 with a guard of 1e-8)
+TOL_FD_NOISY = 1e-6
+FD_GUARD = TOL_FD / 30  # an element is compared only if |fd(h) - fd(h/2)| <= FD_GUARD * per-sample scale
 TOL_EXACT = 1e-12
 RCS = [0.0, 1e-10, 1e-9, 1e-6]
 SIZES = [1, 2, 3, 7, 1999, 2000, 2001, 4001]
@@ -512,7 +523,7 @@ class _FDStat:
     def add(self, ana_u, fd_u, self_u, scale, label):
         err = np.abs(ana_u - fd_u) / scale
         se = self_u / scale
-        ok = se <= TOL_FD / 10
+        ok = se <= FD_GUARD
         self.nel += ok.size
         self.nok += int(np.count_nonzero(ok))
         if np.any(ok):
@@ -633,12 +644,14 @@ def _check_fd(rec, sub, mdl, stats, suffix=""):
         if st.nel == 0 or st.nok == 0:
             continue
         what = {"feat": "dres-vs-fd", "dense": "dres-vs-fd", "rho": "vrho-vs-fd"}[name]
+        tol, pop = TOL_FD, ""
         if suffix:  # the same model passed the FD oracle without cutoff: what is at fault is the cutoff rule
-            what, suffix_m = "rhocut-derivative-rule", ""
-        else:
-            suffix_m = suffix
-        rec.check("fd_%s[%s%s]" % (name, {"xc1": "MappedXC", "xc2": "MappedXC2"}[cls], suffix), st.worst, TOL_FD,
-                  mechanism=_mech(sub, what + suffix_m), count=st.nok,
+            what, tol = "rhocut-derivative-rule", TOL_FD_NOISY
+        elif name == "rho" and sub["nspin"] == 2 and sub["mode"] != "SEP" and any(
+                str(b).startswith(("SS_", "OS_")) for b in (sub["mul"], sub["add"])):
+            tol, pop = TOL_FD_NOISY, ",ss/os-split"
+        rec.check("fd_%s[%s%s%s]" % (name, {"xc1": "MappedXC", "xc2": "MappedXC2"}[cls], suffix, pop), st.worst, tol,
+                  mechanism=_mech(sub, what), count=st.nok,
                   detail={"where": st.where, "mul": base_mul, "add": sub["add"], "ev": sub["ev"], "fam": sub["fam"]})
 
 
@@ -666,7 +679,8 @@ def _run_fd_sub(rec, sub, rng, n=20):
     r0 = _call(mdl.xc, cls, X, rt, 0.0)
     rec.check("cut_rc0_is_default", _cmp_exact(r0[:2], (res, dres), (None, units), scale), TOL_EXACT,
               mechanism=_mech(sub, "rhocut=0-differs"))
-    good = _run_cut(rec, sub, mdl, rng)
+    fd_ok = all(not (stats[k].worst > TOL_FD_NOISY) for k in ("feat", "dense"))
+    good = _run_cut(rec, sub, mdl, rng, fd_with_cut=fd_ok) and fd_ok
     frac = (stats["feat"].nok / max(1, stats["feat"].nel))
     nz = np.mean(np.max(np.abs(dres * units).reshape(-1, n), axis=0) > 1e-6 * scale)
     if frac >= 0.8 and nz >= 0.5 and good:
@@ -687,8 +701,9 @@ def _cut_masks(mode, q, rc):
     return np.broadcast_to(q.sum(0) < rc, q.shape)
 
 
-def _run_cut(rec, sub, mdl, rng):
-    """Cutoff oracles.  Returns False when a rule inconsistency was flagged."""
+def _run_cut(rec, sub, mdl, rng, fd_with_cut=True):
+    """Cutoff oracles.  Returns False when a rule inconsistency was flagged.  The FD of the cut model is only taken
+    when the model passed the FD oracle without cutoff, so that its failure means the cutoff rule is at fault."""
     cls, mode, nspin = sub["cls"], sub["mode"], sub["nspin"]
     good = True
     zero = mdl.zero_model() if cls == "xc2" else None
@@ -716,7 +731,8 @@ def _run_cut(rec, sub, mdl, rng):
         resc, dresc, vc = _call(mdl.xc, cls, X, rt, rc)
         sder = [dres0 * units] + ([a * b for a, b in zip(v0, tunits)] if v0 is not None else [])
         with np.errstate(invalid="ignore"):
-            scale = _scale(np.where(np.isfinite(res0), res0, 0.0), [np.where(np.isfinite(d), d, 0.0) for d in sder])
+            scale = _scale(np.where(np.isfinite(res0), res0, 0.0), [np.where(np.isfinite(d), d, 0.0) for d in sder],
+                           mdl.floor(X, rt))
         tagm = "%s" % ("MappedXC" if cls == "xc1" else "MappedXC2")
         # (i) below: machine-learned part exactly zero in value and derivative
         if cls == "xc1":
@@ -746,7 +762,7 @@ def _run_cut(rec, sub, mdl, rng):
         rec.check("cut_above_value_unchanged[%s]" % tagm, e, TOL_EXACT, mechanism=_mech(sub, "rhocut-changes-value-above"))
         dd = np.abs(dresc - dres0) * units / scale
         dd = np.where(np.broadcast_to(below[:, None, :], dd.shape), 0.0, dd)
-        if mode == "POL" and nspin == 2 and cls == "xc2" and not np.all(np.isfinite(dd) & (dd <= TOL_EXACT)):
+        if not np.all(np.isfinite(dd) & (dd <= TOL_EXACT)):
             good = False
         rec.check("cut_above_deriv_unchanged[%s]" % tagm, float(np.max(dd)) if np.all(np.isfinite(dd)) else float("nan"),
                   TOL_EXACT, mechanism=_mech(sub, "rhocut-derivative-rule"),
@@ -764,9 +780,11 @@ def _run_cut(rec, sub, mdl, rng):
                         e = max(e, float(np.max((np.abs(vc[ic][r] - v0[ic][r]) * tunits[ic][r])[m] / scale[m])))
             rec.check("cut_above_vrho_unchanged[%s]" % tagm, e, TOL_EXACT, mechanism=_mech(sub, "rhocut-changes-vrho-above"))
         # (iii) value and derivative follow the same rule: FD of the cut model (features only) vs its derivative
+        if not fd_with_cut:
+            continue
         stats = _fd_model(mdl, mdl.xc, X, rt, units, tunits, rc, rng, do_rho=False, ndense=1)
         _check_fd(rec, sub, mdl, stats, suffix=",rhocut")
-        if not (stats["feat"].worst <= TOL_FD):
+        if not (stats["feat"].worst <= TOL_FD_NOISY):
             good = False
     return good
 
@@ -997,8 +1015,6 @@ def _run_direct_sub(rec, sub, rng):
 # ---------------------------------------------------------------------------------------------
 
 def run_case(case, rec):
-    rng0 = rng_for(case["seed"], PROP_NO, case["idx"])
-    del rng0
     for i, sub in enumerate(case["subs"]):
         rng = rng_for(case["seed"], PROP_NO, case["idx"] + 1 + i)
         kind = case["kind"]
